@@ -63,7 +63,7 @@ def run_compose(cfg: CCfg, c: Ctx) -> Any:
         feats += [("kw", l) for l in labels if deps[l]]
     if cfg.activation:
         feats += [("act", labels[j], labels[i]) for i in range(N) for j in range(i)]
-    feats += [("alias", "id"), ("alias", "tag"), ("alias", "id-substring-tags"), ("alias", "tag-substring-tags")]
+    feats += [("alias", "id"), ("alias", "tag"), ("alias", "id-substring-tags"), ("alias", "tag-substring-tags"), ("alias", "id-clash")]
     if cfg.activation and cfg.indexed:
         feats += [("actidx", labels[j], labels[i]) for i in range(N) for j in range(i)]
     if cfg.features == "act":
@@ -82,6 +82,10 @@ def run_compose(cfg: CCfg, c: Ctx) -> Any:
     alldeps = {l: list(dict.fromkeys(deps[l] + ([act[l]] if l in act else []))) for l in labels}
     desc, anc = closure(labels, alldeps)
     tags: Dict[str, Any] = {l: ("t%d" % i, "g") if i < 2 else ("t%d" % i,) for i, l in enumerate(labels)}
+    id_clash = bool(feat and feat[0] == "alias" and feat[1] == "id-clash")
+    if id_clash:
+        # the last node is also tagged with the id of the first one: a string alias means the tag first (documented)
+        tags[labels[-1]] = tags[labels[-1]] + (labels[0],)
     if substring_tags:
         # single-string tags; the last node's tag contains the id of the first node and the tag of the second one
         tags = {l: ("t%d" % i if i < N - 1 else "x%s_t1y" % labels[0]) for i, l in enumerate(labels)}
@@ -172,11 +176,27 @@ def run_compose(cfg: CCfg, c: Ctx) -> Any:
     c.check(veq(before, tuple(ref_orig[l] for l in labels)), "original DAG differs from its plain evaluation (before compose)", prop="C19")
 
     def alias(m: str) -> Any:
+        if id_clash and m == labels[-1] and clash_alias[0]:
+            return labels[0]  # the string that is both the first node's id and the last node's tag
         if m == "@x":
             return "pipe>!>x"
         if m == "@g":
             return "g"
         return xns[m] if form == "ref" else (m if form == "id" else (tags[m] if substring_tags else "t%d" % labels.index(m)))
+
+    # ---- documented alias resolution: a string means a tag first, then an id
+    def den(m: str) -> str:
+        return labels[-1] if (id_clash and m == labels[0]) else m
+
+    clash_alias = [False]
+    if id_clash:
+        members = (list(inputs) if inputs is not ... else []) + out_list
+        c.assume(not (labels[0] in members and labels[-1] in members))  # (both would denote the same node)
+        clash_alias[0] = labels[0] in members
+        if inputs is not ...:
+            inputs = [den(m) for m in inputs]
+        outputs = den(outputs) if isinstance(outputs, str) else [den(m) for m in outputs]
+        out_list = [outputs] if isinstance(outputs, str) else list(outputs)
 
     # ---- spec: errors
     expect_error = False
